@@ -1046,7 +1046,7 @@ class C20(Check):
         if len(jobs) > 4:
             # longest jobs first
             order = sorted(jobs, key=lambda j: -(1000 * j[1][4] + sum(map(len, j[1][3])) if j[1][0] == "conc" else 1))
-            with multiprocessing.get_context("fork").Pool(min(14, common.NPROC)) as pool:
+            with multiprocessing.get_context("fork").Pool(min(14, common.NPROC), initializer=common.die_with_parent) as pool:
                 res = pool.map(_job, [j for _, j in order], chunksize=1)
             for (i, j), r in zip(order, res):
                 pre[i] = r if j[0] == "seq" else self._conc_done(cases[i], r)
